@@ -315,81 +315,79 @@ func runC20(c *engine.Ctx) {
 		cmF := field(c, "pkg/nathole", "Session", "clientMsg")
 		vmF := field(c, "pkg/nathole", "Session", "visitorMsg")
 		get := method(c, "pkg/nathole", "Analyzer", "GetRecommandBehaviors")
+		// the two responses are what analysis returns (results #0 for the visitor, #1 for the client); each is traced field
+		// by field to its sources — through a literal written in place or a builder both responses share
+		seenResp := map[ssa.Value]bool{}
 		engine.ForEachInstr(f, func(in ssa.Instruction) {
-			al, ok := in.(*ssa.Alloc)
-			if !ok || !al.Heap || !engine.IsNamed(al.Type(), engine.ModPath+"/pkg/msg", "NatHoleResp") {
+			r, ok := in.(*ssa.Return)
+			if !ok || len(r.Results) < 2 {
 				return
 			}
-			n++
-			prov := func(fieldName string) *engine.Sources {
-				fv := p.Field("pkg/msg", "NatHoleResp", fieldName)
-				if fv == nil {
-					fv = p.Field("pkg/msg", "NatHoleDetectBehavior", fieldName)
+			for ri := 0; ri < 2; ri++ {
+				resp := spilledResult(r, ri)
+				if engine.IsNilConst(resp) || seenResp[resp] {
+					continue
 				}
-				s := engine.Provenance(nil, engine.ProvOpts{})
-				for _, sv := range nameStores(al, fv) {
-					x := engine.Provenance(sv, engine.ProvOpts{})
-					for k := range x.Fields {
-						s.Fields[k] = true
+				seenResp[resp] = true
+				n++
+				prov := func(fieldName string) *engine.Sources {
+					fv := p.Field("pkg/msg", "NatHoleResp", fieldName)
+					if fv == nil {
+						fv = p.Field("pkg/msg", "NatHoleDetectBehavior", fieldName)
 					}
-					for k := range x.Calls {
-						s.Calls[k] = true
-					}
-					for k := range x.CallIns {
-						s.CallIns[k] = true
-					}
-					for k := range x.Values {
-						s.Values[k] = true
-					}
+					return engine.DeepSourcesOfField(p, resp, fv)
 				}
-				return s
-			}
-			tx := prov("TransactionID")
-			forVisitor := tx.HasField(vmF) && !tx.HasField(cmF)
-			forClient := tx.HasField(cmF) && !tx.HasField(vmF)
-			who := "visitor"
-			other, own := cmF, vmF
-			ownIdx := 3 // vBehavior is result #3 of GetRecommandBehaviors
-			if forClient {
-				who, other, own, ownIdx = "client", vmF, cmF, 2
-			}
-			_ = own
-			var bad []string
-			if forVisitor == forClient {
-				bad = append(bad, "cannot tell which party this response is for")
-			}
-			if s := prov("Sid"); !s.HasField(sidF) {
-				bad = append(bad, "Sid is not the session's id")
-			}
-			if s := prov("Mode"); !s.HasCall(get) {
-				bad = append(bad, "Mode is not the recommended mode")
-			}
-			for _, fn2 := range []string{"CandidateAddrs", "AssistedAddrs"} {
-				s := prov(fn2)
-				if !s.HasField(other) || s.HasField(map[bool]*types.Var{true: vmF, false: cmF}[other == cmF]) {
-					bad = append(bad, fn2+" must come from the other party's message")
+				tx := prov("TransactionID")
+				forVisitor := tx.HasField(vmF) && !tx.HasField(cmF)
+				forClient := tx.HasField(cmF) && !tx.HasField(vmF)
+				who := "visitor"
+				other := cmF
+				ownIdx := 3 // vBehavior is result #3 of GetRecommandBehaviors
+				if forClient {
+					who, other, ownIdx = "client", vmF, 2
 				}
-			}
-			// role from the party's own behaviour (result index of GetRecommandBehaviors)
-			roleOK := false
-			rs := prov("Role")
-			for v := range rs.Values {
-				if ex, ok := v.(*ssa.Extract); ok && ex.Index == ownIdx {
-					if cl, ok := ex.Tuple.(*ssa.Call); ok && engine.SameFunc(engine.CalleeObj(cl), get) {
-						roleOK = true
+				var bad []string
+				if forVisitor == forClient {
+					bad = append(bad, "cannot tell which party this response is for")
+				}
+				if forVisitor != (ri == 0) && forVisitor != forClient {
+					bad = append(bad, "the responses are returned in the wrong order (visitor first, client second)")
+				}
+				if s := prov("Sid"); !s.HasField(sidF) {
+					bad = append(bad, "Sid is not the session's id")
+				}
+				if s := prov("Mode"); !s.HasCall(get) {
+					bad = append(bad, "Mode is not the recommended mode")
+				}
+				for _, fn2 := range []string{"CandidateAddrs", "AssistedAddrs"} {
+					s := prov(fn2)
+					if !s.HasField(other) || s.HasField(map[bool]*types.Var{true: vmF, false: cmF}[other == cmF]) {
+						bad = append(bad, fn2+" must come from the other party's message")
 					}
 				}
-				if ex, ok := v.(*ssa.Extract); ok && ex.Index != ownIdx && ex.Index >= 2 {
-					if cl, ok := ex.Tuple.(*ssa.Call); ok && engine.SameFunc(engine.CalleeObj(cl), get) {
-						roleOK = false
-						bad = append(bad, "Role comes from the other party's behaviour")
+				// role from the party's own behaviour (result index of GetRecommandBehaviors)
+				roleOK := false
+				rs := prov("Role")
+				for v := range rs.Values {
+					if ex, ok := v.(*ssa.Extract); ok && ex.Index == ownIdx {
+						if cl, ok := ex.Tuple.(*ssa.Call); ok && engine.SameFunc(engine.CalleeObj(cl), get) {
+							roleOK = true
+						}
 					}
 				}
+				for v := range rs.Values {
+					if ex, ok := v.(*ssa.Extract); ok && ex.Index != ownIdx && ex.Index >= 2 {
+						if cl, ok := ex.Tuple.(*ssa.Call); ok && engine.SameFunc(engine.CalleeObj(cl), get) {
+							roleOK = false
+							bad = append(bad, "Role comes from the other party's behaviour")
+						}
+					}
+				}
+				if !roleOK {
+					bad = append(bad, "Role is not the party's own recommended behaviour")
+				}
+				c.Check(len(bad) == 0, "pkg/nathole.Controller.analysis>response-for-"+who, r.Pos(), 6, nil, "response for the %s is consistent (%s)", who, strings.Join(bad, "; "))
 			}
-			if !roleOK {
-				bad = append(bad, "Role is not the party's own recommended behaviour")
-			}
-			c.Check(len(bad) == 0, "pkg/nathole.Controller.analysis>response-for-"+who, al.Pos(), 6, nil, "response for the %s is consistent (%s)", who, strings.Join(bad, "; "))
 		})
 		c.Floor(n, 2)
 	}
@@ -520,8 +518,43 @@ func runC20(c *engine.Ctx) {
 			}
 			c.Check(okc, fmt.Sprintf("pkg/nathole.Controller.analysis>range-from-classified#%d", n), call.Pos(), 2, nil, "the address list given to getRangePorts was validated by ClassifyNATFeature first")
 		}
+		// ranges computed in a step split out of analysis (a response builder): the step is entered only after the
+		// classification calls, and the list it ranges over is one that was classified
+		classified := map[*types.Var]bool{}
+		clsCalls := engine.CallsTo(f, cls)
+		for _, cc := range clsCalls {
+			for fv := range engine.Provenance(engine.CallArgs(cc)[0], engine.ProvOpts{NoArgs: true}).Fields {
+				if _, isSlice := fv.Type().Underlying().(*types.Slice); isSlice {
+					classified[fv] = true
+				}
+			}
+		}
+		for _, g := range allAnon(f) {
+			gobj, _ := g.Object().(*types.Func)
+			for _, call := range engine.CallsTo(g, grp) {
+				n++
+				okc := gobj != nil
+				if gobj != nil {
+					for _, gc := range engine.CallsTo(f, gobj) {
+						for _, cc := range clsCalls {
+							if !cc.Block().Dominates(gc.Block()) {
+								okc = false
+							}
+						}
+					}
+				}
+				fromClassified := false
+				for fv := range engine.DeepSources(c.P, engine.CallArgs(call)[0]).Fields {
+					if classified[fv] {
+						fromClassified = true
+					}
+				}
+				c.Check(okc && fromClassified && len(clsCalls) >= 2, fmt.Sprintf("pkg/nathole.Controller.analysis>range-from-classified#%d", n), call.Pos(), 2, nil,
+					"the address list given to getRangePorts (in %s) was validated by ClassifyNATFeature first", c.P.FuncName(g))
+			}
+		}
 	}
-	c.Floor(n, 5)
+	c.Floor(n, 4)
 
 	// ---- R5 session hygiene ----
 	c.Rule("R5", "a session is inserted only after signature and allow-list checks; every exit of HandleVisitor after the insert removes the session; HandleClient and HandleReport return early for unknown session ids")
@@ -1103,7 +1136,16 @@ func checkNatholeExits(c *engine.Ctx) {
 		},
 		Pred: func(st *engine.PathState) string {
 			if av, ok := admit.(*ssa.Call); ok {
-				isNil, known := st.IsNil(func(v ssa.Value) bool { return v == ssa.Value(av) })
+				// the admission step's error (its only result, or the error component of its results)
+				isNil, known := st.IsNil(func(v ssa.Value) bool {
+					if v == ssa.Value(av) {
+						return true
+					}
+					if ex, ok := v.(*ssa.Extract); ok && ex.Tuple == ssa.Value(av) {
+						return types.Identical(ex.Type(), types.Universe.Lookup("error").Type())
+					}
+					return false
+				})
 				if known && !isNil {
 					return "" // not admitted: nothing was inserted
 				}
